@@ -69,7 +69,7 @@ RULE = ("one evaluation = one generated history (3-8 keys, inputs / normal / fir
         "key whose computing entry the target owns, for a dependent of such a key, for an owned firewall; they run until parked on the "
         "target's entries, then the target is dropped; every one of them must complete with the from-scratch value), or one executor "
         "panicking (alone, and with such callers parked on the entries of the panicking task); then "
-        "[one case in four is of the family in which an EXECUTOR DROPS ONE OF ITS OWN READS - speculative read of a slow node polled once and "
+        "[some cases (quick: 8, thorough: a quarter) are of the family in which an EXECUTOR DROPS ONE OF ITS OWN READS - speculative read of a slow node polled once and "
         "dropped after a guard read and a guarded read (a division by the guard), guard flipped to 0 and back by the history; for these the "
         "history without any injected fault is an evaluation of its own, and every judged round also checks that only nodes the "
         "from-scratch evaluation reaches were executed] "
@@ -113,7 +113,9 @@ def _shard(args):
     # every run is judged by the oracle; the hook trace of every run (thorough: of every 5th run, to bound the
     # size of the work files) is replayed through the model
     cmd = [binp, "--seed", str(seed), "--tier", ctx.tier, "--out", out, "--n", str(n), "--cfg", cfg,
-           "--trace-every", "1" if ctx.quick() else "5"]
+           "--trace-every", "1" if ctx.quick() else "5",
+           # the "executor drops one of its own reads" family: quick = one case on every second shard, thorough = n/3 per shard
+           "--spec-cases", str((1 - idx % 2) if ctx.quick() else (n + 2) // 3)]
     if ctx.replay:
         cmd += ["--replay", _replay_text(ctx.replay)]
     else:
